@@ -2,6 +2,7 @@ package formatter
 
 import (
 	"strings"
+	"unicode"
 	"unicode/utf8"
 
 	"go.lsp.dev/protocol"
@@ -268,13 +269,13 @@ func calculateAmountCostLen(posting *ast.Posting, commodityFormats map[string]Nu
 	length := 0
 
 	if posting.Amount.Commodity.Position == ast.CommodityLeft {
-		length += utf8.RuneCountInString(posting.Amount.Commodity.Symbol)
+		length += utf8.RuneCountInString(commodityText(posting.Amount.Commodity.Symbol))
 	}
 
 	length += utf8.RuneCountInString(formatAmountQuantity(posting.Amount, commodityFormats))
 
 	if posting.Amount.Commodity.Position == ast.CommodityRight {
-		length += 1 + utf8.RuneCountInString(posting.Amount.Commodity.Symbol)
+		length += 1 + utf8.RuneCountInString(commodityText(posting.Amount.Commodity.Symbol))
 	}
 
 	if posting.Cost != nil {
@@ -284,11 +285,11 @@ func calculateAmountCostLen(posting *ast.Posting, commodityFormats map[string]Nu
 			length += 3 // " @ "
 		}
 		if posting.Cost.Amount.Commodity.Position == ast.CommodityLeft {
-			length += utf8.RuneCountInString(posting.Cost.Amount.Commodity.Symbol)
+			length += utf8.RuneCountInString(commodityText(posting.Cost.Amount.Commodity.Symbol))
 		}
 		length += utf8.RuneCountInString(formatAmountQuantity(&posting.Cost.Amount, commodityFormats))
 		if posting.Cost.Amount.Commodity.Position == ast.CommodityRight {
-			length += 1 + utf8.RuneCountInString(posting.Cost.Amount.Commodity.Symbol)
+			length += 1 + utf8.RuneCountInString(commodityText(posting.Cost.Amount.Commodity.Symbol))
 		}
 	}
 
@@ -384,22 +385,34 @@ func readsBackAs(number string, quantity decimal.Decimal) bool {
 func writeAmountWithSign(sb *strings.Builder, amount *ast.Amount, commodityFormats map[string]NumberFormat) {
 	qty := formatAmountQuantity(amount, commodityFormats)
 
+	symbol := commodityText(amount.Commodity.Symbol)
 	if amount.Commodity.Position == ast.CommodityLeft {
 		if amount.SignBeforeCommodity && len(qty) > 0 && (qty[0] == '-' || qty[0] == '+') {
 			sb.WriteByte(qty[0])
-			sb.WriteString(amount.Commodity.Symbol)
+			sb.WriteString(symbol)
 			sb.WriteString(qty[1:])
 		} else {
-			sb.WriteString(amount.Commodity.Symbol)
+			sb.WriteString(symbol)
 			sb.WriteString(qty)
 		}
 	} else {
 		sb.WriteString(qty)
 		if amount.Commodity.Symbol != "" {
 			sb.WriteString(" ")
-			sb.WriteString(amount.Commodity.Symbol)
+			sb.WriteString(symbol)
 		}
 	}
+}
+
+// commodityText is the commodity symbol as it has to be written: symbols that contain anything
+// but letters and currency signs (blanks, digits, punctuation) need double quotes.
+func commodityText(symbol string) string {
+	for _, r := range symbol {
+		if !unicode.IsLetter(r) && !unicode.Is(unicode.Sc, r) {
+			return "\"" + symbol + "\""
+		}
+	}
+	return symbol
 }
 
 // formatAmountQuantity returns formatted quantity string.
